@@ -13,6 +13,10 @@ Everything outside the loop is a parameter (`Env`), chosen adversarially:
   * `ext k`   — what other threads did to the `PollInfo`s while the k-th call ran (each also sets the trigger event),
   * `wake k`  — the k-th `triggerPoll.wait`: what other threads do while it lasts, as batches `(d, exts)`: `d` ticks after
                 the wait began `exts` happen; the wait ends there if that set the event, otherwise at its time-out.
+                (`d = 0`: between the computation of `wait_time` and the entry of `wait`.)
+  * `gap k`   — what other threads do between the return of the k-th `triggerPoll.wait` of the loop and the
+                `triggerPoll.clear()` that follows it (their setting of the event is wiped out by the `clear`; the
+                loop then starts over and re-reads every `PollInfo`, which is why nothing is lost).
 
     while modules:
         now = time.time()                                                     -- readClock
@@ -104,6 +108,7 @@ structure Env where
   touch : Nat → List Touch
   ext : Nat → List Ext
   wake : Nat → List (Nat × List Ext)
+  gap : Nat → List Ext
 
 /-- an entry of `to_poll`: (module index, parameter) -/
 abbrev Entry := Nat × Nat
@@ -236,9 +241,10 @@ def waitEvent (env : Env) (σ : PollState) (timeout : Nat) : PollState :=
   let σ1 : PollState := if σ.trig then σ else waitBatches timeout σ.clock (env.wake k) σ
   { σ1 with nWait := k + 1 }
 
-/-- `self.triggerPoll.wait(wait_time); self.triggerPoll.clear()` -/
+/-- `self.triggerPoll.wait(wait_time); self.triggerPoll.clear()`: other threads may act between the two
+(`env.gap`, indexed by the number of the wait); the `clear` comes last -/
 def doWait (env : Env) (σ : PollState) (timeout : Nat) : PollState :=
-  { waitEvent env σ timeout with trig := false }
+  { applyExts (env.gap σ.nWait) (waitEvent env σ timeout) with trig := false }
 
 /-! ## main polls -/
 
